@@ -23,12 +23,7 @@ def _load():
 # ---------------------------------------------------------------------------------------------------------
 NOT_APPLICABLE = {}
 # checks whose files exist but which are not claimed yet (listed under not_applicable with the reason given)
-PENDING = {
-    'C03': 'check built (harness/c03_total.cpp); the repairs it led to are being integrated, the check is not yet run to completion on the repaired tree',
-    'C04': 'check built (harness/c04_strict.cpp); the repairs it led to are being integrated, the check is not yet run to completion on the repaired tree',
-    'C05': 'check built (harness/c05_permissive.cpp); the repairs it led to are being integrated, the check is not yet run to completion on the repaired tree',
-    'C06': 'check being built (harness/c06_data.cpp)',
-}
+PENDING = {}
 HOOK_COMMITS = []
 ENGINES = [
     dict(name='enum', path='engines/vh.hpp + harness/c07_chksum.cpp, c08_numeric.cpp, c09_datetime.cpp, c10_realm.cpp, c12_lookup.cpp, c24_schedule.cpp, c29_rotation.cpp, c32_xml.cpp', serves_properties=['C07', 'C08', 'C09', 'C10', 'C12', 'C24', 'C29', 'C32'],
